@@ -25,6 +25,8 @@ structure DState where
   hist : List (List (Bytes × Bytes)) := []
   cuts : Spec.Cuts := []
   store : Store.State := {}
+  /-- lagging reader instances: the epoch record each one has pinned in its cache -/
+  readers : List (Nat × Azks) := []
 
 def parsePairs : List String → Option (List (Bytes × Bytes))
   | [] => some []
@@ -291,6 +293,48 @@ def stepL1 (st : DState) (toks : List String) : Option (DState × String) :=
     match Blob.parse? (if n == "-" then "" else n) with
     | some b => some (st, "ok " ++ Blob.render b)
     | none => some (st, "err")
+  | ["lag.new", k] => do
+    let k ← k.toNat?
+    let a ← st.dir.azks
+    let st := { st with readers := (k, a) :: st.readers.filter (fun r => r.1 ≠ k) }
+    some (st, showErr (fun (eh : Nat × Dig) => s!"{eh.1} {Show.dig eh.2}") (st.dir.epochHash c))
+  | "lag.epochhash" :: k :: [] => do
+    let k ← k.toNat?
+    let (_, a) ← st.readers.find? (fun r => r.1 = k)
+    let d := { st.dir with azks := some a }
+    some (st, showErr (fun (eh : Nat × Dig) => s!"{eh.1} {Show.dig eh.2}") (d.epochHash c))
+  | ["lag.lookup", k, u] => do
+    let k ← k.toNat?
+    let u ← parseHex? u
+    let (_, a) ← st.readers.find? (fun r => r.1 = k)
+    let d := { st.dir with azks := some a }
+    match d.lookup c u with
+    | .ok (p, ep, h) => some (st, s!"{ep} {Show.dig h} " ++ showV Show.verifyResult (Verify.lookup c d.vrf h ep u p))
+    | .error .vrfMissing => some (st, "vrf-missing")
+    | .error _ => some (st, "err")
+  | ["lag.history", k, u, p] => do
+    let k ← k.toNat?
+    let u ← parseHex? u
+    let p ← parseParams p
+    let (_, a) ← st.readers.find? (fun r => r.1 = k)
+    let d := { st.dir with azks := some a }
+    match d.keyHistory c u p with
+    | .ok (hp, ep, h) =>
+      some (st, s!"{ep} {Show.dig h} " ++ showV (fun rs => " ".intercalate (rs.map Show.verifyResult)) (Verify.history c d.vrf h ep u hp p false))
+    | .error .vrfMissing => some (st, "vrf-missing")
+    | .error .panic => some (st, "panic")
+    | .error _ => some (st, "err")
+  | ["lag.audit", k, s, e] => do
+    let k ← k.toNat?
+    let s ← s.toNat?
+    let e ← e.toNat?
+    let (_, a) ← st.readers.find? (fun r => r.1 = k)
+    let d := { st.dir with azks := some a }
+    match d.audit c s e with
+    | .ok ap =>
+      let hashes := (List.range (e - s + 1)).filterMap fun i => (st.roots.find? (fun r => r.1 = s + i)).map (·.2)
+      some (st, showV (fun _ => "") (Auditor.verify c hashes ap))
+    | .error _ => some (st, "err")
   | ["perm.group", _] => some (st, "ok")
   | ["perm.end"] => some (st, "ok")
   | ["azks.setepoch", e] => do
